@@ -36,6 +36,12 @@ def rstrip (l : Line) : Line := (l.reverse.dropWhile isWs).reverse
 /-- `str.strip()` -/
 def strip (l : Line) : Line := rstrip (lstrip l)
 
+/-- the white space `int(str)` / `float(str)` ignore around a number: as `isWs`, but *not* the ASCII
+separators `\x1c`–`\x1f` (they are `str.isspace()` but not C `isspace`) -/
+def isWsNum (c : Char) : Bool := isWs c && !(decide (28 ≤ c.toNat) && decide (c.toNat ≤ 31))
+
+def stripBy (p : Char → Bool) (l : Line) : Line := ((l.dropWhile p).reverse.dropWhile p).reverse
+
 /-- split at every character satisfying `p` (like `str.split(sep)`, keeps empty parts) -/
 def splitOn (p : Char → Bool) : Line → List Line
   | [] => [[]]
@@ -74,7 +80,7 @@ def splitSign : Line → Bool × Line
 
 /-- `int(tok)` for a string (base 10); `none` = ValueError -/
 def pyInt? (tok : Line) : Option Int :=
-  let (neg, body) := splitSign (strip tok)
+  let (neg, body) := splitSign (stripBy isWsNum tok)
   (pyDigits body).map fun ds => if neg then -(natOfDigits ds : Int) else (natOfDigits ds : Int)
 
 /-- `check_to_int_range(tok, _, lo, hi)` -/
@@ -129,7 +135,7 @@ def toBinary64 (mant : Nat) (exp : Int) : Option (Nat × Int) :=
 Grammar: `[sign] (digits ['.' [digits]] | '.' digits) [(e|E) [sign] digits]` (`inf`/`nan` cannot
 reach this function: they contain none of `.`, `e`, `E`). -/
 def pyFloatDec? (tok : Line) : Option (Bool × Nat × Int) :=
-  let (neg, body) := splitSign (strip tok)
+  let (neg, body) := splitSign (stripBy isWsNum tok)
   let (mantS, expS) := splitFirst (fun c => c = 'e' || c = 'E') body
   let (intS, fracS) := splitFirst (· = '.') mantS
   let intD : Option Line := if intS.isEmpty then (if fracS.isSome then some [] else none) else pyDigits intS
